@@ -58,8 +58,19 @@ def work(item):
 
 
 def _work(bse, validator, name, ver, combos, out):
+    from basis_set_exchange import memo
+    import random
     try:
-        b0 = bse.get_basis(name, version=ver, **({'data_dir': combos[0]['data_dir']} if combos and 'data_dir' in combos[0] else {}))
+        # the reference copy is composed with the memoiser switched off, and the option combinations come in an order of their own: the
+        # first call that reaches the cache for this basis may be any of them (a cache that hands out its own object is edited in place
+        # by the option pipeline, and the calls after it start from the edited data)
+        memo.memoize_enabled = False
+        try:
+            b0 = bse.get_basis(name, version=ver, **({'data_dir': combos[0]['data_dir']} if combos and 'data_dir' in combos[0] else {}))
+        finally:
+            memo.memoize_enabled = True
+        combos = list(combos)
+        random.Random(out['label']).shuffle(combos)
     except Exception as e:
         out['error'] = '%s: %s' % (type(e).__name__, str(e)[:80])
         return out
